@@ -16,7 +16,7 @@ from . import ber
 OPS = [
     "len+1", "len-1", "len+k", "len-k", "len0", "len-huge", "len-pad",
     "class", "number", "constructed", "universal-high", "hightag-form",
-    "truncate", "empty", "random", "delete", "duplicate", "swap", "wrap", "indefinite", "append-junk", "bad-utf8",
+    "truncate", "empty", "random", "delete", "duplicate", "swap", "wrap", "indefinite", "append-junk", "bad-utf8", "bad-utf8-same",
 ]
 
 _BAD_UTF8 = [b"\xff", b"\xc3", b"\xed\xa0\x80", b"\xf8\x88\x80\x80\x80", b"\xc0\xaf", b"a\x80b", b"\xe2\x82", b"\xf4\x90\x80\x80"]
@@ -148,6 +148,16 @@ def apply(data: bytes, mut: t.Dict[str, t.Any]) -> t.Tuple[bytes, t.Dict[str, t.
         return data, {"op": "none", "depth": 0}
     i = mut["node"] % len(nodes)
     op = mut["op"]
+    if op == "bad-utf8-same":
+        # consistent replacement: every primitive node whose content equals the chosen node's content gets the same
+        # invalid UTF-8 content (a repeated control type / attribute name stays repeated); lengths are repaired
+        n0 = nodes[i]
+        content = data[n0.start + n0.hdr : n0.start + n0.hdr + n0.length]
+        same = [j for j, n in enumerate(nodes) if not n.constructed and data[n.start + n.hdr : n.start + n.hdr + n.length] == content]
+        out = data
+        for j in reversed(same):
+            out, _ = apply(out, {"node": j, "op": "bad-utf8", "arg": mut.get("arg", 0), "repair": True, "rnd": b""})
+        return out, {"op": op, "depth": n0.depth, "repair": True, "node_tag": (n0.cls, n0.number)}
     s, e, new = _replacement(data, nodes, i, op, mut.get("arg", 0), mut.get("rnd", b""))
     delta = len(new) - (e - s)
     out = bytearray(data[:s] + new + data[e:])
